@@ -53,6 +53,9 @@ def run(ctx):
     from . import c05
 
     c05.polar_to_parameter(ctx.renamed("R19.5"))
+    # the converters follow start + sweep; with a negative radius left in the solver the sweep no longer leads to the end point
+    ctx.rule("R19.6", "the arc the converters follow is the arc of the absolute radii (obligations shared with C05 R05.2)")
+    c05.radius_sign(ctx.renamed("R19.6"), ctx.fn("Arc._svg_parameterize", "R19.6"))
 
 
 def generator(ctx, kind):
